@@ -1017,3 +1017,8 @@ T("U13", "C12", NS, "  k = len(blocks) - q\n  mean, std = UniversalDistribution"
 F("U14", "C12", NS, "    mat = rows[i * r:(i + 1) * r]", "    mat = rows[i * r:(i + 1) * r + 1]", "R-C12-CONSIST", "matrices of r + 1 rows that overlap")
 F("U15", "C12", NS, "    mat = rows[i * r:(i + 1) * r]", "    mat = rows[i:i + r]", "R-C12-CONSIST", "sliding instead of disjoint matrices")
 T("U16", "C12", NS, "    mat = rows[i * r:(i + 1) * r]", "    first = r * i\n    mat = rows[first:first + r]", "slice bounds through a temporary")
+F("U17", "C12", NS, "      cnts.append(cnt)\n      cnt = collections.defaultdict(int)\n  cnts.append(cnt)", "      cnts.append(cnt)\n  cnts.append(cnt)", "R-C12-CYCLES", "all cycles share one counter object")
+F("U18", "C12", NS, "    if s > max_state2:\n      if s > maxs:", "    if s >= max_state2:\n      if s > maxs:", "R-C12-CYCLES", "visits to the outermost state of the band are not counted")
+F("U19", "C12", NS, "    elif s != 0:\n      cnt[s] += 1", "    elif s > 0:\n      cnt[s] += 1", "R-C12-CYCLES", "a negative state closes the cycle")
+F("U20", "C12", NS, "      cnt = collections.defaultdict(int)\n  cnts.append(cnt)\n  total_cnt", "      cnt = collections.defaultdict(int)\n  total_cnt", "R-C12-CYCLES", "the last cycle is dropped")
+T("U21", "C12", NS, "    elif s != 0:\n      cnt[s] += 1\n    else:\n      cnts.append(cnt)\n      cnt = collections.defaultdict(int)", "    elif s == 0:\n      cnts.append(cnt)\n      cnt = collections.defaultdict(int)\n    else:\n      cnt[s] = cnt[s] + 1", "branches swapped, increment spelled out")
